@@ -547,12 +547,51 @@ def mean(a, dim=None, keepdim=False):
     return div(s, cnt)
 
 
+def _extremum(a, label, x, k):
+    """full reduction min / max of a tensor with at least one element: exact (nested If) for small concrete shapes,
+    otherwise a fresh scalar r with a skolem witness (a[w] == r) and the universal half (forall idx: a[idx] >= r resp. <= r)
+    registered in ctx.universals under the rank of ``a``"""
+    if x or k:
+        raise Unsupported(f"{label}(dim/other)")
+    c = sym.ctx()
+    e = a.elem_fn()
+    if e is None:
+        raise Unsupported(f"{label} of an opaque tensor")
+    if a.dim() == 0:
+        v = e(())
+        return SymTensor.from_elem((), a.dtype, lambda idx: v)
+    shape = a.shape
+    better = (lambda p, q: p < q) if label == "min" else (lambda p, q: p > q)
+    if all(isinstance(s_, builtins.int) for s_ in shape):
+        n = 1
+        for s_ in shape:
+            n *= s_
+        if n == 0:
+            raise RuntimeError(f"{label}(): Expected reduction dim to be specified for input.numel() == 0")
+        if n <= 6:
+            import itertools as _it
+
+            vals = [e(tuple(z3.IntVal(i) for i in idx)) for idx in _it.product(*[range(s_) for s_ in shape])]
+            r = vals[0]
+            for v in vals[1:]:
+                r = z3.If(better(v, r), v, r)
+            return SymTensor.from_elem((), a.dtype, lambda idx: r)
+    if not bool(a.numel() >= 1):
+        raise RuntimeError(f"{label}(): Expected reduction dim to be specified for input.numel() == 0")
+    r = z3.Const(c.fresh_name(f"{label}@{a.storage.id}v{a.storage.version}"), T.z3sort(a.dtype))
+    w = tuple(z3.Int(c.fresh_name(f"w!{label}{j}")) for j in range(a.dim()))
+    c.add_axiom(z3.And(a.in_bounds(w), e(w) == r))
+    inb = lambda idx: z3.And(*[z3.And(O.ix(i) >= 0, O.ix(i) < O.ix(s_)) for i, s_ in zip(idx, shape)])  # noqa
+    c.universals.append((len(shape), lambda idx: z3.Implies(inb(idx), z3.Not(better(e(tuple(idx)), r)))))
+    return SymTensor.from_elem((), a.dtype, lambda idx: r)
+
+
 def max_(a, *x, **k):
-    raise Unsupported("max")
+    return _extremum(a, "max", x, k)
 
 
 def min_(a, *x, **k):
-    raise Unsupported("min")
+    return _extremum(a, "min", x, k)
 
 
 def diag_embed(a, offset=0, dim1=-2, dim2=-1):
@@ -681,8 +720,14 @@ def build():
     torch.Size = Size
     torch.dtype = T.DType
     torch.device = T.Device
-    for n in ("float16", "half", "float32", "float64", "double", "int32", "int64", "long", "uint8"):
+    for n in ("float16", "half", "float32", "float64", "double", "int32", "int64", "long", "uint8", "int16", "int8"):
         setattr(torch, n, getattr(T, n))
+
+    def _missing(name):  # an attribute of torch that is not modelled is a limit of the model, never an error of the code under proof
+        if name.startswith("__"):
+            raise AttributeError(name)
+        raise Unsupported(f"torch.{name}")
+    torch.__getattr__ = _missing
     torch.float = T.float32
     torch.int = T.int32
     torch.bool = T.bool_
@@ -713,7 +758,9 @@ def build():
         reshape=O.reshape, flatten=O.flatten, narrow=O.narrow, index_select=_index_select, mean=mean,
     ).items():
         setattr(torch, n, public(n, f))
-    for n in ("max", "min", "prod", "cumsum", "count_nonzero", "isclose", "inverse", "logdet", "cholesky", "cholesky_solve",
+    torch.max = public("max", max_)
+    torch.min = public("min", min_)
+    for n in ("prod", "cumsum", "count_nonzero", "isclose", "inverse", "logdet", "cholesky", "cholesky_solve",
               "dsmm", "sparse_coo_tensor", "sparse_csr_tensor", "pinverse", "qr", "solve", "eig", "sort", "argsort", "scatter",
               "topk", "bmm", "einsum", "outer", "trace", "det", "kron", "allclose", "searchsorted", "unique", "nonzero"):
         setattr(torch, n, public(n, unsupported(n)))
